@@ -307,6 +307,7 @@ func runC13(c *an.Ctx) {
 			c.Check(okR, "C13.d", "first-valid", "performRequest returns (r.headers, nil) only under r.err == nil for the same received result r", perform, r, "returns "+res0, fs)
 		}
 		c.Min("C13.d", "successful returns of performRequest", nNil, 1)
+		checkRequestsUnderTimeout(c, "C13.d", perform, request)
 		// a failed attempt of one peer does not end the request: no way out of performRequest lies on the
 		// path of "this received result failed" — the others are still awaited
 		if recvTerm != "" {
